@@ -426,3 +426,55 @@ func shortLarge() []corpus.Seed {
 	}
 	return out
 }
+
+// cutThenTrailer: every box type (its smallest seed with at least 12 payload bytes) cut after k payload
+// bytes at up to 12 four-byte boundaries, with the size field set to what is left, so that the box is
+// consistent on the outside while its inner counts announce more than it holds; behind it a trailer
+// whose first four bytes (the next box's size) are large: a decoder that reads a count or length past
+// the end of its own box picks those up.
+func cutThenTrailer() []corpus.Seed {
+	var out []corpus.Seed
+	best := map[string]*corpus.Seed{}
+	for i := range cor.Boxes {
+		b := &cor.Boxes[i]
+		if len(b.Data) < 20 || len(b.Data) > 400 || b.Data[3] == 1 && b.Data[0]|b.Data[1]|b.Data[2] == 0 {
+			continue
+		}
+		if cur := best[b.Type]; cur == nil || len(b.Data) < len(cur.Data) {
+			best[b.Type] = b
+		}
+	}
+	var types []string
+	for t := range best {
+		types = append(types, t)
+	}
+	sort.Strings(types)
+	trailers := [][]byte{
+		{0x04, 0, 0, 0, 'f', 'r', 'e', 'e', 0, 0, 0, 0},
+		{0xff, 0xff, 0xff, 0xff, 'm', 'd', 'a', 't', 1, 2, 3, 4},
+	}
+	styp := []byte{0, 0, 0, 16, 's', 't', 'y', 'p', 'm', 's', 'd', 'h', 0, 0, 0, 0}
+	for _, t := range types {
+		sd := best[t]
+		pl := sd.Data[8:]
+		step := 4 * ((len(pl)/4 + 11) / 12)
+		for k := 8; k < len(pl); k += step {
+			for ti, tr := range trailers {
+				d := make([]byte, 0, 8+k+len(tr)+16)
+				if ti == 1 {
+					d = append(d, styp...) // file context
+				}
+				d = append(d, 0, 0, byte((8+k)>>8), byte(8+k))
+				d = append(d, sd.Data[4:8]...)
+				d = append(d, pl[:k]...)
+				d = append(d, tr...)
+				s := corpus.Seed{Name: fmt.Sprintf("%s#cut-at-%d,trailer-%d", sd.Name, k, ti), Kind: "crafted", Data: d}
+				if ti == 0 {
+					s.Type = t
+				}
+				out = append(out, s)
+			}
+		}
+	}
+	return out
+}
